@@ -56,7 +56,10 @@ def run(m: Model, r: Report, tier: str) -> None:
         return [a for a in ancestors(node, par) if isinstance(a, (ast.For, ast.While))]
 
     # ---------------------------------------------------------------- R1
-    r.check(ast.unparse(FOR.iter).replace(" ", "") in ("range(max_retry+1)", "range(0,max_retry+1)", "range(1+max_retry)"), "R1", f"{fn.qualname}#attempts",
+    MR = next((ast.unparse(a.targets[0]) for a in walk_no_nested(fn.node) if isinstance(a, ast.Assign) and "config.max_retry" in ast.unparse(a.value)
+               and "self.max_retry" in ast.unparse(a.value)), "max_retry")
+    IV = ast.unparse(FOR.target)
+    r.check(ast.unparse(FOR.iter).replace(" ", "") in (f"range({MR}+1)", f"range(0,{MR}+1)", f"range(1+{MR})"), "R1", f"{fn.qualname}#attempts",
             f"retry loop iterates over {ast.unparse(FOR.iter)}; documented: max_retry + 1 attempts", loc=fn.loc)
     base_req = m.require_function(f"{BASE}.BaseTransport.request_unsafe")
     writes_in_base = [n for n in ast.walk(base_req.node) if isinstance(n, ast.Call) and ast.unparse(n.func) == "self.write"]
@@ -207,7 +210,7 @@ def run(m: Model, r: Report, tier: str) -> None:
         r.check(ok4, "R4", f"{fn.qualname}#continue@{why or c.lineno}", "a retry is started on an event that is not retry-worthy", loc=f"{fn.module.relpath}:{c.lineno}")
     busy = [n for n in walk_no_nested(fn.node) if isinstance(n, ast.If) and "busyRepeatRequest" in ast.unparse(n.test)]
     okb = len(busy) == 1 and len(busy[0].body) >= 2 and isinstance(busy[0].body[0], ast.If) and \
-        ast.unparse(busy[0].body[0].test).replace(" ", "") == "i>=max_retry" and \
+        ast.unparse(busy[0].body[0].test).replace(" ", "") == f"{IV}>={MR}" and \
         isinstance(busy[0].body[0].body[0], ast.Return) and ast.unparse(busy[0].body[0].body[0].value) == RESP
     r.check(okb, "R4", f"{fn.qualname}#busy-last-attempt", "busyRepeatRequest on the last attempt must be returned to the caller", loc=fn.loc)
 
@@ -297,7 +300,7 @@ def run(m: Model, r: Report, tier: str) -> None:
     r.check(cause, "R6", f"{fn.qualname}#cause", "the MissingResponse does not carry the ConnectionError as __cause__", loc=fn.loc)
     rec = [n for n in ast.walk(h) if isinstance(n, ast.Call) and isinstance(n.func, ast.Attribute) and n.func.attr.startswith("reconnect")]
     ok_rec = len(rec) == 1 and ast.unparse(rec[0].func) == "self.reconnect_unsafe" and \
-        any(isinstance(a, ast.If) and ast.unparse(a.test).replace(" ", "") == "i<max_retry" for a in ancestors(rec[0], par))
+        any(isinstance(a, ast.If) and ast.unparse(a.test).replace(" ", "") == f"{IV}<{MR}" for a in ancestors(rec[0], par))
     r.check(ok_rec, "R6", f"{fn.qualname}#reconnect",
             f"reconnect call(s) {[ast.unparse(x.func) for x in rec]}: must be reconnect_unsafe (the client mutex is already held) under `i < max_retry`", loc=fn.loc)
     r.check(isinstance(h.body[-1], ast.Continue), "R6", f"{fn.qualname}#handler-continues", "the ConnectionError handler must start the next attempt", loc=fn.loc)
